@@ -297,6 +297,14 @@ class Runner:
         return emcmp.parse(io), emcmp.parse(mo), emcmp.parse(so)
 
 
+def in_contract(spec):
+    for n, bl in spec:
+        for b in bl:
+            if b['tags'].get('C') and b['tags']['C'][0].split()[1] != '0':
+                return False
+    return True
+
+
 def split_header(lines):
     i = 0
     while i < len(lines) and lines[i].split() and lines[i].split()[0] in HEADER_OPS + ('verchunk', 'dep', 'chunkfn'):
@@ -304,13 +312,16 @@ def split_header(lines):
     return lines[:i], lines[i:]
 
 
-def shrink(rn, lines, aspects, aspect):
+def shrink(rn, lines, aspects, aspect, extra_tier_a=None):
     hdr, body = split_header(lines)
     def fails(cand):
         sc = [('shrink', hdr + cand)]
         impl, model, spec = rn.run(sc, tag='shrink')
         r = tier_a(impl, spec, sc, aspects)
-        return bool(r) and r[0]['aspect'] == aspect
+        if extra_tier_a:
+            r = r + extra_tier_a(impl, sc)
+        c = tier_a(impl, spec, sc, {'valid'})   # stays inside the contract (the spec stops judging at a contract violation)
+        return bool(r) and r[0]['aspect'] == aspect and in_contract(spec)
     try:
         small = vlib.ddmin(body, fails, budget=150)
     except Exception:
@@ -318,7 +329,7 @@ def shrink(rn, lines, aspects, aspect):
     return hdr + small
 
 
-def run_check(prop, scripts, aspects, tags_b=TAGS_B, witnesses=(), assumptions=(), replay=None, extra_cov=None, theorem_targets=()):
+def run_check(prop, scripts, aspects, tags_b=TAGS_B, witnesses=(), assumptions=(), replay=None, extra_cov=None, theorem_targets=(), extra_tier_a=None):
     """the decision rule of DESIGN.md 2.2 for an entity-manager property"""
     pr = proofcheck.prove(prop, theorem_targets)
     cov = {'obligations': pr['obligations'], 'discharged': pr['discharged'], 'theorems': pr['theorems'],
@@ -332,6 +343,8 @@ def run_check(prop, scripts, aspects, tags_b=TAGS_B, witnesses=(), assumptions=(
         scripts = [(os.path.basename(replay), [l.rstrip('\n') for l in open(replay) if l.strip() and not l.startswith('#')])]
     impl, model, spec = rn.run(scripts)
     fails_a = tier_a(impl, spec, scripts, aspects)
+    if extra_tier_a:
+        fails_a = fails_a + extra_tier_a(impl, scripts)
     div_b = emcmp.compare(impl, model, tags_b)
     sd = dict(scripts)
     # known findings: witness scripts that are expected to fail with a given aspect
@@ -368,7 +381,7 @@ def run_check(prop, scripts, aspects, tags_b=TAGS_B, witnesses=(), assumptions=(
     if fails_a:
         f = fails_a[0]
         lines = sd[f['script']]
-        small = shrink(rn, lines, aspects, f['aspect']) if not replay else lines
+        small = shrink(rn, lines, aspects, f['aspect'], extra_tier_a) if not replay else lines
         p = vlib.write_replay(prop, 'failing_script.txt',
                               '# %s: %s\n# at op %d (%s) of script %s; minimised script follows, original after it\n%s\n%s\n' %
                               (f['aspect'], f['what'], f['opn'], f['op'], f['script'], '\n'.join(small), '\n'.join('# ' + x for x in lines)))
